@@ -556,7 +556,10 @@ func (ip *Interp) load(st *istate, key, pretty string, t types.Type, e ast.Expr)
 			return IVal{K: 't', Ref: key}
 		}
 	}
-	if e != nil && ip.isInputRoot(e) {
+	if strings.HasPrefix(key, "in:") {
+		pretty = key[3:] // an input location reached through a pointer, in any frame
+	}
+	if strings.HasPrefix(key, "in:") || (e != nil && ip.depth == 0 && ip.isInputRoot(e)) {
 		var v IVal
 		if t != nil {
 			if pt, isPtr := t.Underlying().(*types.Pointer); isPtr {
